@@ -155,6 +155,31 @@ CHECKS += [
   "note": "Trusts NumPy/Dask ufunc results on raw arrays as the reference; (superclass signal, subclass signal) dispatch order left open.",
   "technique": "exhaustive enumeration of the ufunc x operand-arrangement alphabet on the real code with a differential oracle on the raw data"},
 ]
+CHECKS += [
+ {"property_id": "C11",
+  "text": "Bounded exhaustive exploration of the readers: 11 reader configurations (4 shipped files incl. multi-file GUPPI and LSB "
+          "Stokes, 5 files written by the check with known (time, pol, chan) payload: complex/real, USB/LSB, Stokes BW>0/<0; a "
+          "lower-sideband GUPPI set; a per-channel sideband mask): every k in [0, len] through absolute/relative times and "
+          "rounding; boundary (offset, n) sets incl. frame/file boundaries and all out-of-range combinations, eager and Dask; "
+          "EVERY sequence of <= 3 reads (4 thorough) over an 8-read alphabet, eager and Dask mixed, on one long-lived reader; "
+          "2 threads (3 thorough) x 2 reads each on one reader under a cooperative scheduler that explores EVERY interleaving at "
+          "Python-line granularity with <= 1 (2 thorough) preemptions, with and without a scheduler-aware lock=; two readers in "
+          "one Dask graph; free-running real-thread smoke pass.",
+  "note": "Trusts baseband's own reader/writer for the reference data and the long-double Hilbert reference (n <= 48); interleavings "
+          "are explored between lines of pulsarbat/readers/*.py and utils.py only, code in baseband/numpy runs atomically; C-level "
+          "parallelism is not modelled; the free-running pass is not coverage.",
+  "technique": "stateless model checking of the implementation: preemption-bounded exhaustive schedule exploration under a controlled scheduler + exhaustive read-history enumeration against a reference"},
+ {"property_id": "C14",
+  "text": "Explicit-state breadth-first search over operation HISTORIES on real objects: 7 initial signals with writable buffers of "
+          "different layouts (contiguous, strided views, Fortran order, complex64, NaN/inf content, Dask-wrapped buffer, 1-D) x all "
+          "70 catalogue operations (incl. raising ones and ones with array/Quantity/Time/list arguments) to depth 2 (3 thorough), "
+          "successors de-duplicated on (type, shape, dtype, data bytes, metadata), outputs fed back as inputs so aliasing views are "
+          "reached; after every transition the byte snapshot of every earlier pool member, base buffer and argument must be "
+          "unchanged. Sanctioned out=/in-place writes are checked to change only their target.",
+  "note": "Trusts byte/attribute snapshots (tobytes + dtype/shape/strides/flags + repr of attributes); lazily built Dask results are "
+          "computed so that tasks touching the inputs run.",
+  "technique": "explicit-state BFS over operation histories on the real implementation with an immutability invariant checked in every reached state"},
+]
 _ALL = ["C%02d" % i for i in range(1, 21)]
 NOT_APPLICABLE = [{"property_id": p, "reason": "check not yet built in this session (planned in DESIGN.md; no claim made yet)"}
                   for p in _ALL if p not in {c["property_id"] for c in CHECKS}]
